@@ -30,6 +30,9 @@ CLAIMS = {
  "C14": dict(engine="coq-layer-g", tech="Coq proof over definitions regenerated from the code (jaxpr translation) + direct predicate on the implementation",
    text="Full: for every gate of every built-in channel, Coq theorems over the reals (all v, all dt>0, all parameters; taumax>0) state update_states(init_state(v),dt,v)=init_state(v) about definitions regenerated from /repo on every run; renamed channels are proved identical. Module.init_states' row selection is tied by correspondence on sampled modules with partial insertions.",
    note=G_NOTE, ref="DESIGN.md §5 C14"),
+ "C16": dict(engine="coq-layer-m", tech="Coq-verified checker for the reader's sectioning/connectivity (soundness proved, run on the reader's output) + interpolation lemmas + independent declarative reference",
+   text="Partial: proved are (a) the soundness of a checker that accepts a sectioning only if every section is an unbranched same-type parent-child path that cannot be extended and every traced point lies in exactly one section, and that branch connectivity is the file's parent-child connectivity; (b) that linear interpolation is exact at traced points and stays between neighbouring traced radii, that compartment centres lie inside the branch and that total length is independent of ncomp. The reader's quirky sectioning loop itself is not modelled: its output is run through the checker and compared (sections, types, lengths with the documented conventions, radii at centres, min_radius, groups, ncomp independence, max_branch_len) with an independent reference on random depth-first trees.",
+   note=M_NOTE + " tools/swcref.py (the declarative reference) is trusted. Known finding F25 (max_branch_len on coarse tracings raises).", ref="DESIGN.md §5 C16"),
  "C17": dict(engine="coq-layer-g", tech="Coq proof over definitions regenerated from the code (jaxpr translation) + direct predicate on the implementation",
    text="Full for the real-number semantics: bounds, strict monotonicity and both round trips of sigmoid, softplus, negative softplus, affine, masked and chained transforms for ALL real x and all lower<upper; chains of any length and ParamTransform (as map2 over leaves) as list theorems. float64 round trips are tested where the inverse is representable.",
    note=G_NOTE, ref="DESIGN.md §5 C17"),
